@@ -993,7 +993,10 @@ def edit_size(modname, qualname, fn):
   ref = inventory().get(modname, {}).get(qualname, {}).get('flat')
   if ref is None:
     return None
-  cur = flat_form(fn)
+  # indentation is not compared: `if` -> `elif`, or a guard instead of an
+  # else, re-nests a whole block without changing a statement of it
+  cur = [l.strip() for l in flat_form(fn)]
+  ref = [l.strip() for l in ref]
   if cur == ref:
     return 0
   return sum(1 for l in difflib.ndiff(ref, cur) if l[:1] in '+-')
